@@ -72,3 +72,39 @@ def _sec(sector):
 def build_vector(S, name, chargemap, complex_=None):
     """BlockVector with one 1-d block per charge"""
     return sr.BlockVector({c: S.fill(f"{name}<{str(c).replace(' ', '')}>", (d,), complex_) for c, d in chargemap})
+
+
+# --- dtype names of symbolic blocks -------------------------------------------------------------
+# autoray reports "object" for blocks of terms; library code (or a change to it) that keys on the dtype *name*
+# would then take a path no numpy user takes.  Report the modelled machine dtype instead: "complex128" if any entry
+# is a complex term, "float64" otherwise.  (The unchanged library reads the name only in __repr__.)
+import autoray as _ar
+import numpy as _np
+from .zt import Z as _Z
+
+_orig_get_dtype_name = _ar.get_dtype_name
+
+
+def _get_dtype_name(x):
+    if isinstance(x, _np.ndarray) and x.dtype == object:
+        cx = False
+        seen = False
+        for e in x.reshape(-1):
+            if isinstance(e, _Z):
+                seen = True
+                if e.im is not None:
+                    cx = True
+                    break
+        if seen:
+            return "complex128" if cx else "float64"
+    elif isinstance(x, _Z):
+        return "complex128" if x.im is not None else "float64"
+    return _orig_get_dtype_name(x)
+
+
+_ar.get_dtype_name = _get_dtype_name
+try:
+    import autoray.autoray as _ara
+    _ara.get_dtype_name = _get_dtype_name
+except Exception:
+    pass
